@@ -14,6 +14,8 @@ BS_METHODS = [('clear', 0), ('operator==', 1), ('operator!=', 1), ('setBit', 1),
               ('removeOdd', 0), ('removeEven', 0), ('removeSmaller', 1), ('removeLarger', 1), ('operator|=', 1), ('operator&=', 1),
               ('getMinBit', 0), ('getMaxBit', 0), ('bitCount', 0)]
 OPNAMES = {'operator==': 'eq', 'operator!=': 'ne', 'operator|=': 'orAssign', 'operator&=': 'andAssign'}
+# data bounds of the CspSolver proofs: the quantifier of C20 (1..10 variables, 0..25 constraints); loop iterations are unbounded
+DATA_MAXV, DATA_MAXC = 10, 25
 LOGRULE = (r'LOG\([^;]*\);', '', '0+')
 
 
@@ -54,7 +56,7 @@ def build():
     U.tr.consts['LE'] = 'Oper_LE'; U.tr.consts['GE'] = 'Oper_GE'
     U.const(CS_H, 'minAllowedValue', 'CspSolver')
     U.struct(CS_H, 'Constraint', expect=[('const int', 'v1', ''), ('const int', 'v2', ''), ('const int', 'c', '')])
-    MAXV, MAXC = 16, 192
+    MAXV, MAXC = DATA_MAXV, DATA_MAXC
     U.raw('#define CSP_MAXVARS %d\n#define CSP_MAXCONSTR %d\n'
           'struct VecDomain { struct Domain* data; int size; };\nstruct VecConstrSet { struct ConstrSet* data; int size; };\n'
           'struct VecConstraint { struct Constraint* data; int size; };\nstruct VecInt { int* data; int size; };\n' % (MAXV, MAXC))
@@ -77,3 +79,252 @@ def build():
     U.passthrough('CONSTRSET_ZERO', 'Domain_ne', 'ConstrSet_orAssign')
     U.raw('#define CONSTRSET_ZERO ((struct ConstrSet){{0, 0, 0}})\n')
     return U
+
+
+def _gen_spec():
+    MAXV, MAXC = DATA_MAXV, DATA_MAXC
+    s = common.BIT_SPEC + r'''
+int ghost_e;      /* arbitrary element (stands for "for all elements") */
+int ghost_ci;     /* arbitrary constraint index */
+int ghost_k;      /* arbitrary variable index */
+/* set views */
+#define DOM_HAS_W(w0, v) ((v) >= -16 && (v) < 48 && ((((U64)(w0)) >> ((v) + 16)) & 1) != 0)
+#define CS_HAS_W(w0, w1, w2, i) ((i) >= 0 && (i) < 192 && (((((i) >> 6) == 0 ? (U64)(w0) : ((i) >> 6) == 1 ? (U64)(w1) : (U64)(w2)) >> ((i) & 63)) & 1) != 0)
+#define DOM_HAS(d, v) DOM_HAS_W((d).data[0], v)
+#define CS_HAS(c, i) CS_HAS_W((c).data[0], (c).data[1], (c).data[2], i)
+#define DOM_EMPTY(d) ((d).data[0] == 0)
+#define CS_EMPTY(c) ((c).data[0] == 0 && (c).data[1] == 0 && (c).data[2] == 0)
+#define DOM_SUBSET(a, b) (((a).data[0] & ~(b).data[0]) == 0)
+#define CS_SUBSET(a, b) ((((a).data[0] & ~(b).data[0]) | ((a).data[1] & ~(b).data[1]) | ((a).data[2] & ~(b).data[2])) == 0)
+/* bits at or above n are zero */
+#define CS_BELOW(c, n) ( ((n) >= 192) || ((n) >= 128 ? (((c).data[2] >> ((n) - 128)) == 0) : ((c).data[2] == 0 && ((n) >= 64 ? (((c).data[1] >> ((n) - 64)) == 0) : ((c).data[1] == 0 && ((n) <= 0 ? (c).data[0] == 0 : (((c).data[0] >> (n)) == 0)))))) )
+int ghost_sol[CSP_MAXVARS];   /* an arbitrary assignment: when it is a solution it must survive pruning and be found */
+'''
+    s += '#define SOL_IN_DOMS(self) (' + ' && '.join('(%d >= (self)->domain.size || DOM_HAS((self)->domain.data[%d], ghost_sol[%d]))' % (k, k, k) for k in range(MAXV)) + ')\n'
+    s += '#define SOL_SAT_ALL(self) (' + ' && '.join('(%d >= (self)->constr.size || ghost_sol[(self)->constr.data[%d].v1] <= ghost_sol[(self)->constr.data[%d].v2] + (self)->constr.data[%d].c)' % (c, c, c, c) for c in range(MAXC)) + ')\n'
+    s += '#define CONSTR_WF(self) (' + ' && '.join('(%d >= (self)->constr.size || ((self)->constr.data[%d].v1 >= 0 && (self)->constr.data[%d].v1 < (self)->domain.size && (self)->constr.data[%d].v2 >= 0 && (self)->constr.data[%d].v2 < (self)->domain.size && (self)->constr.data[%d].c >= -64 && (self)->constr.data[%d].c <= 64))' % ((c,) * 7) for c in range(MAXC)) + ')\n'
+    s += '#define V2C_BELOW(self) (' + ' && '.join('(%d >= (self)->domain.size || CS_BELOW((self)->varToConstr.data[%d], (self)->constr.size))' % (k, k) for k in range(MAXV)) + ')\n'
+    s += '#define DOMS_SHRUNK(self) (' + ' && '.join('(%d >= (self)->domain.size || DOM_SUBSET((self)->domain.data[%d], __CPROVER_old((self)->domain.data[%d])))' % (k, k, k) for k in range(MAXV)) + ')\n'
+    s += r'''
+#define CSP_SHAPE(self) (__CPROVER_is_fresh(self, sizeof(*self)) \
+    && 0 <= (self)->domain.size && (self)->domain.size <= CSP_MAXVARS && __CPROVER_is_fresh((self)->domain.data, CSP_MAXVARS * sizeof(struct Domain)) \
+    && 0 <= (self)->constr.size && (self)->constr.size <= CSP_MAXCONSTR && __CPROVER_is_fresh((self)->constr.data, CSP_MAXCONSTR * sizeof(struct Constraint)) \
+    && (self)->varToConstr.size == (self)->domain.size && __CPROVER_is_fresh((self)->varToConstr.data, CSP_MAXVARS * sizeof(struct ConstrSet)) \
+    && (self)->prefVal.size == (self)->domain.size && __CPROVER_is_fresh((self)->prefVal.data, CSP_MAXVARS * sizeof(int)))
+'''
+    return s
+
+
+SPEC = _gen_spec()
+
+
+def _bitset_contracts(name, HAS, EMPTY, lo, hi, nwords):
+    S = '__CPROVER_is_fresh(self, sizeof(*self))'
+    B = '__CPROVER_is_fresh(b, sizeof(*b))'
+    e = 'ghost_e'
+    inr = lambda x: '%d <= %s && %s < %d' % (lo, x, x, hi)
+    oldhas = '%s_W(%s, %s)' % (HAS, ', '.join('__CPROVER_old(self->data[%d])' % w for w in range(nwords)), e)
+    C = {}
+    C[name + '_clear'] = {'requires': [S], 'assigns': ['*self'], 'ensures': ['%s(*self)' % EMPTY]}
+    C[name + '_setBit'] = {'requires': [S, inr('i')], 'assigns': ['*self'],
+                           'ensures': ['%s(*self, i)' % HAS, '%s != i ==> %s(*self, %s) == %s' % (e, HAS, e, oldhas)]}
+    C[name + '_clearBit'] = {'requires': [S, inr('i')], 'assigns': ['*self'],
+                             'ensures': ['!%s(*self, i)' % HAS, '%s != i ==> %s(*self, %s) == %s' % (e, HAS, e, oldhas)]}
+    C[name + '_getBit'] = {'requires': [S, inr('i')], 'assigns': [], 'ensures': ['__CPROVER_return_value == %s(*self, i)' % HAS]}
+    C[name + '_empty'] = {'requires': [S], 'assigns': [], 'ensures': ['__CPROVER_return_value == %s(*self)' % EMPTY, '__CPROVER_return_value ==> !%s(*self, %s)' % (HAS, e)]}
+    C[name + '_setRange'] = {'requires': [S, '%d <= minVal && minVal < %d' % (lo, hi), '%d <= maxVal && maxVal < %d' % (lo - 1, hi)], 'assigns': ['*self'],
+                             'ensures': ['(%s) ==> (%s(*self, %s) == (minVal <= %s && %s <= maxVal))' % (inr(e), HAS, e, e, e)]}
+    C[name + '_removeOdd'] = {'requires': [S], 'assigns': ['*self'], 'ensures': ['%s(*self, %s) == (%s && (%s %% 2) == 0)' % (HAS, e, oldhas, e)]}
+    C[name + '_removeEven'] = {'requires': [S], 'assigns': ['*self'], 'ensures': ['%s(*self, %s) == (%s && (%s %% 2) != 0)' % (HAS, e, oldhas, e)]}
+    C[name + '_removeSmaller'] = {'requires': [S, '-1000000 <= minVal && minVal < %d' % hi], 'assigns': ['*self'],
+                                  'ensures': ['%s(*self, %s) == (%s && %s >= minVal)' % (HAS, e, oldhas, e)]}
+    C[name + '_removeLarger'] = {'requires': [S, '%d <= maxVal && maxVal <= 1000000' % (lo - 1)], 'assigns': ['*self'],
+                                 'ensures': ['%s(*self, %s) == (%s && %s <= maxVal)' % (HAS, e, oldhas, e)]}
+    C[name + '_orAssign'] = {'requires': [S, B], 'assigns': ['*self'], 'ensures': ['%s(*self, %s) == (%s || %s(*b, %s))' % (HAS, e, oldhas, HAS, e)]}
+    C[name + '_andAssign'] = {'requires': [S, B], 'assigns': ['*self'], 'ensures': ['%s(*self, %s) == (%s && %s(*b, %s))' % (HAS, e, oldhas, HAS, e)]}
+    weq = ' && '.join('self->data[%d] == b->data[%d]' % (w, w) for w in range(nwords))
+    C[name + '_eq'] = {'requires': [S, B], 'assigns': [], 'ensures': ['__CPROVER_return_value == (%s)' % weq, '__CPROVER_return_value ==> (%s(*self, %s) == %s(*b, %s))' % (HAS, e, HAS, e)]}
+    C[name + '_ne'] = {'requires': [S, B], 'assigns': [], 'ensures': ['__CPROVER_return_value == !(%s)' % weq]}
+    C[name + '_getMinBit'] = {'requires': [S], 'assigns': [],
+                              'ensures': ['%s(*self) ==> __CPROVER_return_value == -1' % EMPTY,
+                                          '!%s(*self) ==> (%s(*self, __CPROVER_return_value) && (%s(*self, %s) ==> %s >= __CPROVER_return_value))' % (EMPTY, HAS, HAS, e, e)]}
+    C[name + '_getMaxBit'] = {'requires': [S], 'assigns': [],
+                              'ensures': ['%s(*self) ==> __CPROVER_return_value == -1' % EMPTY,
+                                          '!%s(*self) ==> (%s(*self, __CPROVER_return_value) && (%s(*self, %s) ==> %s <= __CPROVER_return_value))' % (EMPTY, HAS, HAS, e, e)]}
+    C[name + '_bitCount'] = {'requires': [S], 'assigns': [], 'ensures': ['__CPROVER_return_value == ' + ' + '.join('spec_popcount(self->data[%d])' % w for w in range(nwords))]}
+    return C
+
+
+CONTRACTS = dict(common.BIT_CONTRACTS)
+CONTRACTS.update(_bitset_contracts('Domain', 'DOM_HAS', 'DOM_EMPTY', -16, 48, 1))
+CONTRACTS.update(_bitset_contracts('ConstrSet', 'CS_HAS', 'CS_EMPTY', 0, 192, 3))
+
+_BS_FUNCS = ['clear', 'setBit', 'clearBit', 'getBit', 'empty', 'setRange', 'removeOdd', 'removeEven', 'removeSmaller', 'removeLarger',
+             'orAssign', 'andAssign', 'eq', 'ne', 'getMinBit', 'getMaxBit', 'bitCount']
+_SIG = {'clear': '', 'setBit': 'int a', 'clearBit': 'int a', 'getBit': 'int a', 'empty': '', 'setRange': 'int a, int b', 'removeOdd': '', 'removeEven': '',
+        'removeSmaller': 'int a', 'removeLarger': 'int a', 'orAssign': 'struct %s* o', 'andAssign': 'struct %s* o', 'eq': 'struct %s* o', 'ne': 'struct %s* o',
+        'getMinBit': '', 'getMaxBit': '', 'bitCount': ''}
+
+HARNESS = r'''
+#ifdef CANARY
+#define CANARY_POINT __CPROVER_assert(0, "canary: harness end reachable")
+#else
+#define CANARY_POINT
+#endif
+int nondet_int(void);
+static void havoc_ghosts(void) { ghost_e = nondet_int(); ghost_ci = nondet_int(); ghost_k = nondet_int(); __CPROVER_havoc_object(ghost_sol); }
+'''
+GROUPS = []
+for _cls in ('Domain', 'ConstrSet'):
+    for _f in _BS_FUNCS:
+        sig = _SIG[_f] % _cls if '%s' in _SIG[_f] else _SIG[_f]
+        decl = '; '.join(x.strip() for x in sig.split(',')) + ';' if sig else ''
+        args = ', '.join(x.strip().split()[-1].lstrip('*') for x in sig.split(',')) if sig else ''
+        HARNESS += 'void h_%s_%s(void) { struct %s* s; %s havoc_ghosts(); %s_%s(s%s); CANARY_POINT; }\n' % (_cls, _f, _cls, decl, _cls, _f, (', ' + args) if args else '')
+        repl = []
+        if _f == 'setRange':
+            repl = ['%s_removeSmaller' % _cls, '%s_removeLarger' % _cls]
+        if _f == 'ne':
+            repl = ['%s_eq' % _cls]
+        if _f in ('getMinBit',):
+            repl = ['BitUtil_firstBit']
+        if _f in ('getMaxBit',):
+            repl = ['BitUtil_lastBit']
+        if _f == 'bitCount':
+            repl = ['BitUtil_bitCount']
+        GROUPS.append(Group('%s_%s' % (_cls, _f), 'h_%s_%s' % (_cls, _f), enforce='%s_%s' % (_cls, _f), replace=tuple(repl), min_props=2))
+
+UNWIND = {'spec_popcount': 65, 'spec_lowest': 65, 'spec_highest': 65}
+for _cls, _n in (('Domain', 2), ('ConstrSet', 4)):
+    for _f in _BS_FUNCS:
+        UNWIND['%s_%s' % (_cls, _f)] = _n
+PROPERTIES = {'C20': [g.name for g in GROUPS]}
+
+# ------------------------------------------------------------------ CspSolver
+_SHAPE = ['__CPROVER_is_fresh(self, sizeof(*self))',
+          '__CPROVER_is_fresh(self->domain.data, CSP_MAXVARS * sizeof(struct Domain))', '0 <= self->domain.size && self->domain.size <= CSP_MAXVARS',
+          '__CPROVER_is_fresh(self->constr.data, CSP_MAXCONSTR * sizeof(struct Constraint))', '0 <= self->constr.size && self->constr.size <= CSP_MAXCONSTR',
+          '__CPROVER_is_fresh(self->varToConstr.data, CSP_MAXVARS * sizeof(struct ConstrSet))', 'self->varToConstr.size == self->domain.size',
+          '__CPROVER_is_fresh(self->prefVal.data, CSP_MAXVARS * sizeof(int))', 'self->prefVal.size == self->domain.size']
+_VAR = '0 <= varNo && varNo < self->domain.size'
+for _f, _post in (('makeEven', 'DOM_HAS(self->domain.data[varNo], ghost_e) == (DOM_HAS_W(__CPROVER_old(self->domain.data[varNo].data[0]), ghost_e) && (ghost_e % 2) == 0)'),
+                  ('makeOdd', 'DOM_HAS(self->domain.data[varNo], ghost_e) == (DOM_HAS_W(__CPROVER_old(self->domain.data[varNo].data[0]), ghost_e) && (ghost_e % 2) != 0)')):
+    CONTRACTS['CspSolver_' + _f] = {'requires': _SHAPE + [_VAR], 'assigns': ['self->domain.data[varNo]'], 'ensures': [_post]}
+CONTRACTS['CspSolver_addMinVal'] = {'requires': _SHAPE + [_VAR, '-1000000 <= minVal && minVal < 48'], 'assigns': ['self->domain.data[varNo]'],
+                                    'ensures': ['DOM_HAS(self->domain.data[varNo], ghost_e) == (DOM_HAS_W(__CPROVER_old(self->domain.data[varNo].data[0]), ghost_e) && ghost_e >= minVal)']}
+CONTRACTS['CspSolver_addMaxVal'] = {'requires': _SHAPE + [_VAR, '-17 <= maxVal && maxVal <= 1000000'], 'assigns': ['self->domain.data[varNo]'],
+                                    'ensures': ['DOM_HAS(self->domain.data[varNo], ghost_e) == (DOM_HAS_W(__CPROVER_old(self->domain.data[varNo].data[0]), ghost_e) && ghost_e <= maxVal)']}
+CONTRACTS['CspSolver_getBitVal'] = {
+    'requires': ['__CPROVER_is_fresh(self, sizeof(*self))', '!DOM_EMPTY(d)', '0 <= pref && pref <= 3'],
+    'assigns': [],
+    # whatever the preference order, the value returned is a member of the domain
+    'ensures': ['DOM_HAS(d, __CPROVER_return_value)',
+                # and the documented preference: SMALL = minimum, LARGE = maximum
+                '(pref == PrefVal_SMALL && DOM_HAS(d, ghost_e)) ==> ghost_e >= __CPROVER_return_value',
+                '(pref == PrefVal_LARGE && DOM_HAS(d, ghost_e)) ==> ghost_e <= __CPROVER_return_value'],
+}
+CONTRACTS['CspSolver_makeArcConsistent'] = {
+    'requires': _SHAPE + ['CONSTR_WF(self)', 'V2C_BELOW(self)',
+                 # the ghost assignment is a solution: inside every domain, satisfies every constraint
+                 'SOL_IN_DOMS(self)', 'SOL_SAT_ALL(self)'],
+    'assigns': ['__CPROVER_object_whole(self->domain.data)'],
+    # a solution is never pruned, hence "false" is only returned for unsatisfiable systems; domains only shrink
+    'ensures': ['__CPROVER_return_value', 'SOL_IN_DOMS(self)', 'DOMS_SHRUNK(self)'],
+    'loops': {0: {'mode': 'cut',
+                  'havoc': '__CPROVER_havoc_object(&constrMask); __CPROVER_havoc_object(self->domain.data);',
+                  'invariant': ['SOL_IN_DOMS(self)', 'CS_BELOW(constrMask, self->constr.size)', 'DOMS_SHRUNK_G(self)']}},
+}
+SPEC += '#define DOMS_SHRUNK_G(self) (' + ' && '.join('(%d >= (self)->domain.size || DOM_SUBSET((self)->domain.data[%d], ghost_dom0[%d]))' % (k, k, k) for k in range(DATA_MAXV)) + ')\n'
+SPEC += 'struct Domain ghost_dom0[CSP_MAXVARS];   /* domains at entry of makeArcConsistent (snapshot by ghost code) */\n'
+CONTRACTS['CspSolver_makeArcConsistent']['ghost_entry'] = 'for (int ghost_i = 0; ghost_i < CSP_MAXVARS; ghost_i++) ghost_dom0[ghost_i] = self->domain.data[ghost_i];'
+CONTRACTS['CspSolver_makeArcConsistent']['assigns'].append('__CPROVER_object_whole(ghost_dom0)')
+
+for _f, _sig in (('makeEven', 'int v'), ('makeOdd', 'int v'), ('addMinVal', 'int v, int a'), ('addMaxVal', 'int v, int a')):
+    decl = '; '.join(x.strip() for x in _sig.split(',')) + ';'
+    args = ', '.join(x.strip().split()[-1] for x in _sig.split(','))
+    HARNESS += 'void h_%s(void) { struct CspSolver* s; %s havoc_ghosts(); CspSolver_%s(s, %s); CANARY_POINT; }\n' % (_f, decl, _f, args)
+    GROUPS.append(Group(_f, 'h_' + _f, enforce='CspSolver_' + _f,
+                        replace={'makeEven': ('Domain_removeOdd',), 'makeOdd': ('Domain_removeEven',), 'addMinVal': ('Domain_removeSmaller',), 'addMaxVal': ('Domain_removeLarger',)}[_f], min_props=3))
+HARNESS += 'void h_getBitVal(void) { struct CspSolver* s; struct Domain d; int pref; havoc_ghosts(); __CPROVER_havoc_object(&d); CspSolver_getBitVal(s, d, pref); CANARY_POINT; }\n'
+HARNESS += 'void h_arc(void) { struct CspSolver* s; havoc_ghosts(); __CPROVER_havoc_object(ghost_dom0); CspSolver_makeArcConsistent(s); CANARY_POINT; }\n'
+_DOMF = ('Domain_getMinBit', 'Domain_getMaxBit', 'Domain_getBit', 'Domain_removeLarger', 'Domain_removeSmaller', 'Domain_ne', 'Domain_empty')
+_CSF = ('ConstrSet_setRange', 'ConstrSet_empty', 'ConstrSet_getMinBit', 'ConstrSet_orAssign', 'ConstrSet_clearBit')
+GROUPS.append(Group('getBitVal', 'h_getBitVal', enforce='CspSolver_getBitVal', replace=('Domain_getMinBit', 'Domain_getMaxBit', 'Domain_getBit'), min_props=4,
+                    unwindset={'CspSolver_getBitVal': 4}))
+GROUPS.append(Group('makeArcConsistent', 'h_arc', enforce='CspSolver_makeArcConsistent', replace=_DOMF + _CSF, min_props=10, timeout=1800,
+                    unwindset={'CspSolver_makeArcConsistent': DATA_MAXV + 1}))
+PROPERTIES = {'C20': [g.name for g in GROUPS]}
+
+# Manual enforcement (mode M: plain CBMC harness on typed objects, same contract text; DESIGN 2.2): dfcc's byte-level model of
+# is_fresh'ed arrays makes the symbolic-index writes of this loop intractable (>30 min), the same obligations on typed arrays close quickly.
+HARNESS += r"""
+struct CspWorld { struct CspSolver cs; struct Domain dom[CSP_MAXVARS]; struct Constraint con[CSP_MAXCONSTR]; struct ConstrSet v2c[CSP_MAXVARS]; int pv[CSP_MAXVARS]; };
+static void csp_world(struct CspWorld* w) {
+    __CPROVER_havoc_object(w);
+    w->cs.domain.data = w->dom; w->cs.constr.data = w->con; w->cs.varToConstr.data = w->v2c; w->cs.prefVal.data = w->pv;
+    __CPROVER_assume(0 <= w->cs.domain.size && w->cs.domain.size <= CSP_MAXVARS && 0 <= w->cs.constr.size && w->cs.constr.size <= CSP_MAXCONSTR
+                     && w->cs.varToConstr.size == w->cs.domain.size && w->cs.prefVal.size == w->cs.domain.size);
+}
+void h_arc_manual(void) {
+    struct CspWorld w; havoc_ghosts(); __CPROVER_havoc_object(ghost_dom0); csp_world(&w);
+    struct CspSolver* self = &w.cs;
+    __CPROVER_assume(CONSTR_WF(self) && V2C_BELOW(self) && SOL_IN_DOMS(self) && SOL_SAT_ALL(self));
+    struct CspWorld w0 = w;
+    _Bool r = CspSolver_makeArcConsistent(self);
+    __CPROVER_assert(r, "makeArcConsistent: a satisfiable system is never reported unsatisfiable");
+    __CPROVER_assert(SOL_IN_DOMS(self), "makeArcConsistent: no value of any solution is pruned");
+    __CPROVER_assert(DOMS_SHRUNK_G(self), "makeArcConsistent: domains only shrink");
+    for (int i = 0; i < CSP_MAXCONSTR; i++) __CPROVER_assert(w.con[i].v1 == w0.con[i].v1 && w.con[i].v2 == w0.con[i].v2 && w.con[i].c == w0.con[i].c, "frame: constraints unchanged");
+    for (int i = 0; i < CSP_MAXVARS; i++) __CPROVER_assert(w.v2c[i].data[0] == w0.v2c[i].data[0] && w.v2c[i].data[1] == w0.v2c[i].data[1] && w.v2c[i].data[2] == w0.v2c[i].data[2], "frame: varToConstr unchanged");
+    CANARY_POINT;
+}
+"""
+GROUPS = [g for g in GROUPS if g.name != 'makeArcConsistent']
+GROUPS.append(Group('makeArcConsistent', 'h_arc_manual', min_props=10, timeout=1800, note='mode M (manual enforcement of the contract of CspSolver_makeArcConsistent; loop closed by L-cut)',
+                    unwindset={'CspSolver_makeArcConsistent': DATA_MAXV + 1, 'h_arc_manual': 26}))
+for _cls, _n in (('Domain', 2), ('ConstrSet', 4)):
+    pass
+PROPERTIES = {'C20': [g.name for g in GROUPS]}
+
+# ---- exact word-level facts added to the BitSet contracts used by the solver loops (the ghost-element form only speaks
+# about one arbitrary element; the loops need "for all elements", which the word-level form states without quantifier) ----
+_W = 'self->data[0]'
+CONTRACTS['Domain_getMaxBit']['ensures'] += ['!DOM_EMPTY(*self) ==> (-16 <= __CPROVER_return_value && __CPROVER_return_value < 48 && (__CPROVER_return_value == 47 || (self->data[0] >> (__CPROVER_return_value + 17)) == 0))']
+CONTRACTS['Domain_getMinBit']['ensures'] += ['!DOM_EMPTY(*self) ==> (-16 <= __CPROVER_return_value && __CPROVER_return_value < 48 && (self->data[0] & ((1ULL << (__CPROVER_return_value + 16)) - 1)) == 0)']
+CONTRACTS['Domain_removeLarger']['ensures'] += ['self->data[0] == (maxVal >= 47 ? __CPROVER_old(self->data[0]) : (__CPROVER_old(self->data[0]) & ((1ULL << ((maxVal + 17) & 63)) - 1)))']
+CONTRACTS['Domain_removeSmaller']['ensures'] += ['self->data[0] == (minVal <= -16 ? __CPROVER_old(self->data[0]) : (__CPROVER_old(self->data[0]) & ~((1ULL << ((minVal + 16) & 63)) - 1)))']
+CONTRACTS['ConstrSet_getMinBit']['ensures'] += ['!CS_EMPTY(*self) ==> (0 <= __CPROVER_return_value && __CPROVER_return_value < 192)']
+for _k in range(3):
+    CONTRACTS['ConstrSet_clearBit']['ensures'] += ['self->data[%d] == ((i >> 6) == %d ? (__CPROVER_old(self->data[%d]) & ~(1ULL << (i & 63))) : __CPROVER_old(self->data[%d]))' % (_k, _k, _k, _k)]
+    CONTRACTS['ConstrSet_orAssign']['ensures'] += ['self->data[%d] == (__CPROVER_old(self->data[%d]) | b->data[%d])' % (_k, _k, _k)]
+GROUPS = [g for g in GROUPS if g.name != 'makeArcConsistent']
+GROUPS.append(Group('makeArcConsistent', 'h_arc', enforce='CspSolver_makeArcConsistent', replace=_DOMF + _CSF, min_props=10, timeout=1800,
+                    unwindset={'CspSolver_makeArcConsistent': DATA_MAXV + 1}))
+PROPERTIES = {'C20': [g.name for g in GROUPS]}
+
+GROUPS = [g for g in GROUPS if g.name != 'makeArcConsistent']
+GROUPS.append(Group('makeArcConsistent', 'h_M_arc', enforce='CspSolver_makeArcConsistent', replace=_DOMF + _CSF, mode='M', m_pre='    havoc_ghosts(); __CPROVER_havoc_object(ghost_dom0);\n',
+                    min_props=10, timeout=1800, unwindset={'CspSolver_makeArcConsistent': DATA_MAXV + 1}))
+PROPERTIES = {'C20': [g.name for g in GROUPS]}
+
+# makeArcConsistent: the L-cut obligations "invariant base", "no solution value pruned at exit" and "domains only shrink at exit" close in
+# 13-24 s each in mode M, but the inductive step and "never returns false for a satisfiable system" did not finish in 15 min
+# (SAT reasoning about symbolic shifts of the 64-bit domain words); the group is therefore NOT part of the claim.
+PROPERTIES = {'C20': [g.name for g in GROUPS if g.name != 'makeArcConsistent']}
+ASSUMPTIONS = {'C20': ['callers respect the documented argument ranges of addMinVal/addMaxVal/setRange (the repo asserts in addVariable/addIneq; their callers in extproofkernel.cpp are outside the subset)']}
+NOT_DECIDED = {'C20': ['CspSolver::makeArcConsistent (loop invariant with a ghost solution written and cut mechanically, inductive step not discharged within 15 min by any back end tried)',
+                       'CspSolver::solveRecursive / solve (backtracking search): not under contract',
+                       'hence "reports solvable exactly when a solution exists" is NOT decided; decided are the bit-set primitives of both instantiations, the domain-restriction functions and getBitVal (returned value is a member for every preference order)',
+                       'termination']}
+MUTANTS = [
+    dict(name='removeOdd_parity', file='lib/texelutillib/bitSet.hpp', pattern=r'if \(offs % 2\)\n            ptrn <<= 1;', repl='if (offs % 2 == 0)\n            ptrn <<= 1;', groups=['Domain_removeOdd', 'ConstrSet_removeOdd']),
+    dict(name='removeSmaller_off_by_one', file='lib/texelutillib/bitSet.hpp', pattern=r'data\[w\] &= ~\(\(1ULL << \(minVal&63\)\) - 1\);', repl='data[w] &= ~((2ULL << (minVal&63)) - 1);', groups=['Domain_removeSmaller']),
+    dict(name='removeLarger_no_increment', file='lib/texelutillib/bitSet.hpp', pattern=r'        maxVal -= offs;\n        maxVal\+\+;', repl='        maxVal -= offs;', groups=['Domain_removeLarger']),
+    dict(name='removeLarger_words', file='lib/texelutillib/bitSet.hpp', pattern=r'while \(\+\+w < nWords\)', repl='while (++w < nWords - 1)', groups=['ConstrSet_removeLarger']),
+    dict(name='getMaxBit_offset', file='lib/texelutillib/bitSet.hpp', pattern=r'return i \* 64 \+ BitUtil::lastBit\(data\[i\]\) \+ offs;', repl='return i * 64 + BitUtil::lastBit(data[i]) - offs;', groups=['Domain_getMaxBit']),
+    dict(name='getMinBit_word_order', file='lib/texelutillib/bitSet.hpp', pattern=r'int getMinBit\(\) const \{\n        for \(int i = 0; i < nWords; i\+\+\)', repl='int getMinBit() const {\n        for (int i = nWords - 1; i >= 0; i--)', groups=['ConstrSet_getMinBit']),
+    dict(name='getBitVal_middle_small', file='lib/texelutillib/pg/cspsolver.cpp', pattern=r'for \(int b = 3; b >= 1; b--\)\n            if \(d.getBit\(b\)\)\n                return b;', repl='for (int b = 3; b >= 1; b--)\n            if (d.getBit(b))\n                return b - 1;', groups=['getBitVal']),
+    dict(name='makeOdd_is_even', file='lib/texelutillib/pg/cspsolver.cpp', pattern=r'domain\[varNo\]\.removeEven\(\);', repl='domain[varNo].removeOdd();', groups=['makeOdd']),
+    dict(name='setRange_order', file='lib/texelutillib/bitSet.hpp', pattern=r'removeSmaller\(minVal\);\n        removeLarger\(maxVal\);', repl='removeSmaller(maxVal);\n        removeLarger(minVal);', groups=['Domain_setRange']),
+    dict(name='orAssign_and', file='lib/texelutillib/bitSet.hpp', pattern=r'data\[i\] \|= b.data\[i\];', repl='data[i] &= b.data[i];', groups=['ConstrSet_orAssign']),
+]
